@@ -251,9 +251,10 @@ namespace bluetoe {
                 if ( this->state() != details::sm_pairing_state::pairing_completed )
                     return bluetoe::device_pairing_status::no_key;
 
-                return algorithm_ == details::lesc_pairing_algorithm::just_works
-                    ? device_pairing_status::unauthenticated_key
-                    : device_pairing_status::authenticated_key;
+                // numeric comparison is the only authenticated association model, the LESC pairing exchange implements
+                return algorithm_ == details::lesc_pairing_algorithm::numeric_comparison
+                    ? device_pairing_status::authenticated_key
+                    : device_pairing_status::unauthenticated_key;
             }
 
             std::pair< bool, details::uint128_t > find_key( std::uint16_t ediv, std::uint64_t rand ) const
@@ -448,9 +449,10 @@ namespace bluetoe {
 
                 long_term_key_ = long_term_key;
 
-                pairing_status_ = state_data_.lesc_state.algorithm == details::lesc_pairing_algorithm::just_works
-                    ? device_pairing_status::unauthenticated_key
-                    : device_pairing_status::authenticated_key;
+                // numeric comparison is the only authenticated association model, the LESC pairing exchange implements
+                pairing_status_ = state_data_.lesc_state.algorithm == details::lesc_pairing_algorithm::numeric_comparison
+                    ? device_pairing_status::authenticated_key
+                    : device_pairing_status::unauthenticated_key;
             }
 
             const details::uint128_t& c1_p1() const
